@@ -330,3 +330,10 @@ impl Cx
 {
 	pub fn thorough(&self) -> bool {self.tier == "thorough"}
 }
+
+/// location of the trias / tridas executables built by `./check` from /repo's working tree
+pub fn repo_bin(name: &str) -> std::path::PathBuf
+{
+	let root = std::env::var("VERIF_ROOT").unwrap_or_else(|_| "/verif".to_owned());
+	std::path::PathBuf::from(root).join("harness/target/repo-bins/release").join(name)
+}
